@@ -1,3 +1,4 @@
+import SafeNet.Base.Sha3
 import SafeNet.Proofs.Wire
 /-!
 # C12 — record and message encodings round-trip and stay wire-stable
@@ -98,6 +99,13 @@ theorem chunk_addr_recomputed (H : List Nat → List Nat) (c : Chunk)
     simp only [WellFormed, Chunk.toVal, wf, Bool.and_eq_true, decide_eq_true_eq]; exact hv
   rw [(record_roundtrip .Chunk c.toVal hw).2]
   rfl
+
+/-- The same with the content hash the code uses, SHA3-256 as defined in `Base/Sha3` (FIPS 202): the decoded chunk's
+address is the 32-byte SHA3-256 digest of its bytes, whatever address was put on the wire. -/
+theorem chunk_addr_is_sha3 (c : Chunk) (hv : c.value.length < 4294967296 ∧ isBytes c.value = true) :
+    ∃ d, (tryDeserializeRecord (trySerializeRecord c.toVal .Chunk)).bind (Chunk.ofVal SafeNet.Sha3.hashBytes) = some d ∧
+      d.address = SafeNet.Sha3.hashBytes c.value ∧ d.address.length = 32 ∧ d.value = c.value :=
+  ⟨_, chunk_addr_recomputed _ c hv, rfl, SafeNet.Sha3.hashBytes_length _, rfl⟩
 
 /-- **decode_total / errors instead of crashes** (model half; the implementation half is the correspondence run
 under `catch_unwind`): the decoders are total functions, and truncated or unknown-kind input is an error:
@@ -386,6 +394,7 @@ end SafeNet.Props.C12
 #print axioms SafeNet.Props.C12.record_roundtrip
 #print axioms SafeNet.Props.C12.record_roundtrip_typed
 #print axioms SafeNet.Props.C12.chunk_addr_recomputed
+#print axioms SafeNet.Props.C12.chunk_addr_is_sha3
 #print axioms SafeNet.Props.C12.decode_total
 #print axioms SafeNet.Props.C12.prefix_rejected
 #print axioms SafeNet.Props.C12.truncated_record_rejected
